@@ -192,6 +192,23 @@ class Next(EQLUnion, ConclusionSelector):
     A Union conclusion selector that always evaluates the left and right branches and combines their results.
     """
 
+    def evaluate_left(
+        self,
+        sources: Dict[int, HashedValue],
+    ) -> Iterable[OperationResult]:
+        """
+        Evaluate the left operand only. The right operand (the next rule) is a rule of its own and is evaluated from
+        the incoming bindings: handing it the bindings of a false left result would also hand it the variables that
+        only the failed rule bound.
+
+        :param sources: The current bindings to use for evaluation.
+        :return: The results of the left operand.
+        """
+        for left_value in self.left._evaluate__(sources, parent=self):
+            self.left_evaluated = True
+            self._is_false_ = left_value.is_false
+            yield OperationResult(left_value.bindings, self._is_false_, self)
+
     def _evaluate__(
         self,
         sources: Optional[Dict[int, HashedValue]] = None,
